@@ -1,11 +1,15 @@
 import SJ.Proofs.Machine
+import SJ.Proofs.Utf8Machine
 /-!
 # C09 — string, slice and reader inputs give identical outcomes
 
 Proved here: the slice and the reader source give *identical* outcomes (value or error code and
 position) for the `Value` and ignored targets, in every configuration, for every byte string.
 The `&str` source differs from the slice source only in skipping the UTF-8 check of decoded
-strings (`c09_str_slice_partial` states what is proved about it).
+strings; a `&str` is valid UTF-8 by type, and on every valid UTF-8 input the check never fires
+(`Proofs/Utf8Machine.lean`: what has been decoded so far followed by the unread input stays valid
+UTF-8), so the `&str` source gives the identical outcome too: `c09_str_slice_value`, `c09_str_slice`,
+and all three together in `c09_all_sources`.
 -/
 namespace SJ.Props.C09
 open SJ SJ.Gen SJ.Model.Machine SJ.Proofs.Machine
@@ -89,9 +93,60 @@ theorem c09_str_slice_ignored (cfg : Cfg) (bs : Bytes) :
   exact hrun init 0
 
 /-- non-vacuity -/
-example : parseTop (envOf {} .slice .value) [0x5b, 0x31, 0x65, 0x39, 0x39, 0x39, 0x2c, 0x32, 0x5d]
-    = .err .NumberOutOfRange 7 := rfl
-example : parseTop (envOf {} .reader .value) [0x5b, 0x31, 0x65, 0x39, 0x39, 0x39, 0x2c, 0x32, 0x5d]
-    = .err .NumberOutOfRange 7 := rfl
+example : (parseTop (envOf {} .slice .value) [0x5b, 0x31, 0x65, 0x39, 0x39, 0x39, 0x2c, 0x32, 0x5d]).isErr
+    .NumberOutOfRange 7 = true := by decide +kernel
+example : (parseTop (envOf {} .reader .value) [0x5b, 0x31, 0x65, 0x39, 0x39, 0x39, 0x2c, 0x32, 0x5d]).isErr
+    .NumberOutOfRange 7 = true := by decide +kernel
+
+/-! ## the `&str` source -/
+
+/-- **C09 (`&str` vs slice, `Value`).** A `&str` is valid UTF-8; on every valid UTF-8 input `from_str`
+    and `from_slice` produce the same value, or the same error code at the same byte position. (The
+    only difference between the sources — the `as_str` UTF-8 check of a decoded string, skipped for
+    `&str` — never fires on such input.) -/
+theorem c09_str_slice_value (cfg : Cfg) (bs : Bytes) (h : Spec.Utf8.validUtf8 bs = true) :
+    parseTop ⟨cfg, .str, .value⟩ bs = parseTop ⟨cfg, .slice, .value⟩ bs :=
+  SJ.Proofs.Utf8.parseTop_str_slice cfg .value bs h
+
+/-- the same for either target (for skipped content the hypothesis is not even needed:
+    `c09_str_slice_ignored`) -/
+theorem c09_str_slice (cfg : Cfg) (tgt : Tgt) (bs : Bytes) (h : Spec.Utf8.validUtf8 bs = true) :
+    parseTop (envOf cfg .str tgt) bs = parseTop (envOf cfg .slice tgt) bs :=
+  SJ.Proofs.Utf8.parseTop_str_slice cfg tgt bs h
+
+/-- **C09.** On valid UTF-8 input all three sources give identical outcomes. -/
+theorem c09_all_sources (cfg : Cfg) (tgt : Tgt) (bs : Bytes) (h : Spec.Utf8.validUtf8 bs = true) :
+    parseTop (envOf cfg .str tgt) bs = parseTop (envOf cfg .slice tgt) bs ∧
+    parseTop (envOf cfg .slice tgt) bs = parseTop (envOf cfg .reader tgt) bs :=
+  ⟨c09_str_slice cfg tgt bs h, c09_slice_reader cfg tgt bs⟩
+
+/-- non-vacuity: `["éé😀é",1e999]` is valid UTF-8; both sources reject it with the same error at the
+    same index (and accept the array without the number with the same value) -/
+example : Spec.Utf8.validUtf8 [0x5b, 0x22, 0xc3, 0xa9, 0xc3, 0xa9, 0xf0, 0x9f, 0x98, 0x80, 0x5c, 0x75, 0x30, 0x30,
+    0x65, 0x39, 0x22, 0x2c, 0x31, 0x65, 0x39, 0x39, 0x39, 0x5d] = true := by decide +kernel
+example : (parseTop ⟨{}, .str, .value⟩ [0x5b, 0x22, 0xc3, 0xa9, 0xc3, 0xa9, 0xf0, 0x9f, 0x98, 0x80, 0x5c, 0x75, 0x30,
+    0x30, 0x65, 0x39, 0x22, 0x2c, 0x31, 0x65, 0x39, 0x39, 0x39, 0x5d]).isErr .NumberOutOfRange 24 = true := by
+  decide +kernel
+example : (parseTop ⟨{}, .slice, .value⟩ [0x5b, 0x22, 0xc3, 0xa9, 0xc3, 0xa9, 0xf0, 0x9f, 0x98, 0x80, 0x5c, 0x75, 0x30,
+    0x30, 0x65, 0x39, 0x22, 0x2c, 0x31, 0x65, 0x39, 0x39, 0x39, 0x5d]).isErr .NumberOutOfRange 24 = true := by
+  decide +kernel
+example : parseTop ⟨{}, .str, .value⟩ [0x5b, 0x22, 0xc3, 0xa9, 0xc3, 0xa9, 0xf0, 0x9f, 0x98, 0x80, 0x5c, 0x75, 0x30,
+      0x30, 0x65, 0x39, 0x22, 0x5d] =
+    .ok (.arr [.str [0xc3, 0xa9, 0xc3, 0xa9, 0xf0, 0x9f, 0x98, 0x80, 0xc3, 0xa9]]) := rfl
+example : parseTop ⟨{}, .slice, .value⟩ [0x5b, 0x22, 0xc3, 0xa9, 0xc3, 0xa9, 0xf0, 0x9f, 0x98, 0x80, 0x5c, 0x75,
+      0x30, 0x30, 0x65, 0x39, 0x22, 0x5d] =
+    .ok (.arr [.str [0xc3, 0xa9, 0xc3, 0xa9, 0xf0, 0x9f, 0x98, 0x80, 0xc3, 0xa9]]) :=
+  (c09_str_slice_value {} _ (by decide +kernel)).symm.trans rfl
+/-- all three sources on `"é"` for skipped content -/
+example : parseTop (envOf {} .str .ignored) [0x22, 0xc3, 0xa9, 0x22] = .ok .null ∧
+    parseTop (envOf {} .slice .ignored) [0x22, 0xc3, 0xa9, 0x22] = parseTop (envOf {} .reader .ignored) [0x22, 0xc3, 0xa9, 0x22] :=
+  ⟨rfl, (c09_all_sources {} .ignored _ (by decide +kernel)).2⟩
+example : parseTop (envOf { ap := true } .reader .value) [0x22, 0xc3, 0xa9, 0x22] = .ok (.str [0xc3, 0xa9]) := by
+  have h := c09_all_sources { ap := true } .value [0x22, 0xc3, 0xa9, 0x22] (by decide +kernel)
+  rw [← h.2, ← h.1]; rfl
+/-- the hypothesis is needed: on `"\xff"` (not UTF-8, so not a `&str`) the model of the `&str` source,
+    which skips the check, differs from the slice source -/
+example : parseTop ⟨{}, .str, .value⟩ [0x22, 0xff, 0x22] = .ok (.str [0xff]) ∧
+    parseTop ⟨{}, .slice, .value⟩ [0x22, 0xff, 0x22] = .err .InvalidUnicodeCodePoint 3 := ⟨rfl, rfl⟩
 
 end SJ.Props.C09
